@@ -660,6 +660,15 @@ class Interpreter:
             elif isinstance(leaf, CompoundState) and leaf.initial:
                 return MicroStep(entered_states=[leaf.initial])
 
+        # Enter the children of an active orthogonal state that are not yet active (this happens
+        # when a nested state of an orthogonal state is directly targeted by a transition)
+        names = set(names)
+        for name in sorted(names, key=lambda s: (self._statechart.depth_for(s), s)):
+            if isinstance(self._statechart.state_for(name), OrthogonalState):
+                missing = [c for c in self._statechart.children_for(name) if c not in names]
+                if missing:
+                    return MicroStep(entered_states=sorted(missing))
+
         return None
 
     def _apply_step(self, step: MicroStep) -> MicroStep:
